@@ -28,6 +28,11 @@ TACTICS_ORDER = [1, 2, 3, 4, 5]  # noqa: WPS407
 # conjoin guarantees of a component whose assumptions did not hold)
 CONTAINMENT_TOLERANCE = 1e-9
 
+# the decisions taken from LP answers (redundant or not, bounded or not) are only as good as the solver's tolerances: with the
+# defaults (1e-7) HiGHS calls `min -0.001 y  s.t.  -20000 y <= -20000` optimal and misses a constraint that differs from a
+# nearly parallel one by 3e-5
+LP_OPTIONS = {"primal_feasibility_tolerance": 1e-10, "dual_feasibility_tolerance": 1e-10}  # noqa: WPS407
+
 
 class PolyhedralTerm(Term):
     """Polyhedral terms are linear inequalities over a list of variables."""
@@ -911,11 +916,15 @@ class PolyhedralTermList(TermList):  # noqa: WPS338
         polarity = 1
         if maximize:
             polarity = -1
-        res = linprog(c=polarity * obj_mat[0], A_ub=self_mat, b_ub=self_cons, bounds=(None, None))
+        res = linprog(c=polarity * obj_mat[0], A_ub=self_mat, b_ub=self_cons, bounds=(None, None), options=LP_OPTIONS)
         if res["status"] == 2:
             # the solver's presolve may report an unbounded problem as infeasible: ask again without it
             res = linprog(
-                c=polarity * obj_mat[0], A_ub=self_mat, b_ub=self_cons, bounds=(None, None), options={"presolve": False}
+                c=polarity * obj_mat[0],
+                A_ub=self_mat,
+                b_ub=self_cons,
+                bounds=(None, None),
+                options=dict(LP_OPTIONS, presolve=False),
             )
         # Linprog's status values
         # 0 : Optimization proceeding nominally.
@@ -1080,7 +1089,7 @@ class PolyhedralTermList(TermList):  # noqa: WPS338
             # 2 : Problem appears to be infeasible.
             # 3 : Problem appears to be unbounded.
             # 4 : Numerical difficulties encountered.
-            res = linprog(c=objective, A_ub=a_opt, b_ub=b_opt, bounds=(None, None))  # ,options={'tol':0.000001})
+            res = linprog(c=objective, A_ub=a_opt, b_ub=b_opt, bounds=(None, None), options=LP_OPTIONS)
             b_temp[i] -= 1
             # the tested row, relaxed by 1, is itself among the constraints: the LP is bounded, and a solver status
             # other than "optimal" says nothing about redundancy
@@ -1155,7 +1164,7 @@ class PolyhedralTermList(TermList):  # noqa: WPS338
             a_opt = np.concatenate((a_l, constraint), axis=0)
             b_opt = np.concatenate((b_l, np.array([b_temp])))
 
-            res = linprog(c=objective, A_ub=a_opt, b_ub=b_opt, bounds=(None, None))  # ,options={'tol':0.000001})
+            res = linprog(c=objective, A_ub=a_opt, b_ub=b_opt, bounds=(None, None), options=LP_OPTIONS)
             b_temp -= 1
             if res["status"] != 0:
                 # no optimum to compare with (infeasible, or the solver gave up): containment is not established
@@ -1198,7 +1207,7 @@ class PolyhedralTermList(TermList):  # noqa: WPS338
             return False
         assert n == len(b)
         objective = np.zeros((1, m))
-        res = linprog(c=objective, A_ub=a, b_ub=b, bounds=(None, None))  # ,options={'tol':0.000001})
+        res = linprog(c=objective, A_ub=a, b_ub=b, bounds=(None, None), options=LP_OPTIONS)
         # Linprog's status values
         # 0 : Optimization proceeding nominally.
         # 1 : Iteration limit reached.
@@ -1356,7 +1365,7 @@ class PolyhedralTermList(TermList):  # noqa: WPS338
         logging.debug(new_context_mat)
         logging.debug(new_context_cons)
         logging.debug(objective)
-        res = linprog(c=objective, A_ub=new_context_mat, b_ub=new_context_cons, bounds=(None, None))
+        res = linprog(c=objective, A_ub=new_context_mat, b_ub=new_context_cons, bounds=(None, None), options=LP_OPTIONS)
         if res["status"] in {2, 3}:
             # unbounded
             # return term.copy()
@@ -1486,7 +1495,7 @@ class PolyhedralTermList(TermList):  # noqa: WPS338
         if refine:
             objective *= -1
 
-        res = linprog(c=objective, A_ub=B, b_ub=b, bounds=(None, None))
+        res = linprog(c=objective, A_ub=B, b_ub=b, bounds=(None, None), options=LP_OPTIONS)
         # Linprog's status values
         # 0 : Optimization proceeding nominally.
         # 1 : Iteration limit reached.
